@@ -23,10 +23,25 @@ ASSUMPTIONS = [
 INNER = gen.Opts(mux=True, max_depth=1, max_len=3, exact=False, weights={'item': 2, 'fold': 5, 'seq': 5, 'muxseq': 4, 'window': 2, 'tee': 2})
 
 
+NONE_PRED = [None]       # criterion of a None ITEM (set per case)
+
+
+def pf(i):
+    return NONE_PRED[0] if i is None else i[0]
+
+
+def vf(i):
+    return -1 if i is None else i[1]
+
+
+def gf(i):
+    return 0 if i is None else i[2]
+
+
 def runs_of(objs):
     runs = []
     for it in objs:
-        if runs and not (it[0] != runs[-1][0][0]):
+        if runs and not (pf(it) != pf(runs[-1][0])):
             runs[-1].append(it)
         else:
             runs.append([it])
@@ -73,48 +88,55 @@ def case_gen(draw):
     # a key-stateful operator BEHIND split, inside the same parent key: it must receive the last segment's result
     # before the parent key completes
     post = draw(st.sampled_from([None, None, 'to_list', 'count']))
-    return {'pool': pool, 'preds': preds, 'gk': gk, 'parent': parent, 'pspec': pspec, 'p': p, 'post': post}
+    none_at = draw(st.lists(st.integers(0, max(0, len(preds) - 1)), max_size=3, unique=True)) if draw(st.integers(0, 3)) == 0 else []
+    return {'pool': pool, 'preds': preds, 'gk': gk, 'parent': parent, 'pspec': pspec, 'p': p, 'post': post,
+            'none_at': none_at, 'none_pred': draw(st.integers(0, 3))}
 
 
 def check(case):
     pool, parent, p = case['pool'], case['parent'], case['p']
     # item = (predicate object, payload int, group key)
     objs = [(keys.mk(pool[pi]), n, g) for n, (pi, g) in enumerate(zip(case['preds'], case['gk']))]
-    ctx = {k: case.get(k) for k in ('pool', 'preds', 'gk', 'parent', 'pspec', 'p', 'post')}
+    # None ITEMS: the predicate is an ordinary pure function of the item, it maps None to one of the pool values
+    NONE_PRED[0] = keys.mk(pool[case.get('none_pred', 0) % len(pool)])
+    for n in case.get('none_at', []):
+        if n < len(objs):
+            objs[n] = None
+    ctx = {k: case.get(k) for k in ('pool', 'preds', 'gk', 'parent', 'pspec', 'p', 'post', 'none_at', 'none_pred')}
     post = case.get('post')
     post_real = {None: [], 'to_list': [rs.data.to_list()], 'count': [rs.ops.count()]}[post]
     clock, phead, head, tail = [0], [], [], []
     to_list_inner = p == [['to_list']]
-    seg_ops = [drive.tap(head, clock)] + ([rs.data.to_list()] if to_list_inner else [rs.ops.map(lambda i: i[1])] + A.build_pipeline(p, A.Env()))
-    inner = [drive.tap(phead, clock), rs.data.split(lambda i: i[0], seg_ops)] + post_real
+    seg_ops = [drive.tap(head, clock)] + ([rs.data.to_list()] if to_list_inner else [rs.ops.map(vf)] + A.build_pipeline(p, A.Env()))
+    inner = [drive.tap(phead, clock), rs.data.split(pf, seg_ops)] + post_real
     if parent == 'none':
         ops = inner
     elif parent == 'group_by':
-        ops = [rs.ops.group_by(lambda i: i[2], inner)]
+        ops = [rs.ops.group_by(gf, inner)]
     elif parent == 'roll':
         ops = [rs.data.roll(case['pspec'][0], case['pspec'][1], inner)]
     elif parent == 'gb+roll':      # interleaved groups over (mostly overlapping) windows: parent key indexes are created out of order
-        ops = [rs.ops.group_by(lambda i: i[2], [rs.data.roll(case['pspec'][0], case['pspec'][1], inner)])]
+        ops = [rs.ops.group_by(gf, [rs.data.roll(case['pspec'][0], case['pspec'][1], inner)])]
     else:
-        ops = [rs.data.split(lambda i: i[2], inner)]
+        ops = [rs.data.split(gf, inner)]
 
     # reference model for the whole output
     mctx = M.MCtx('mux')
     def seg_chain():
-        return M.Chain(mctx, [M.Scan(A.acc_append, list, True)] if to_list_inner else [M.Map(lambda i: i[1])] + A.model_chain(p, mctx).ops)
+        return M.Chain(mctx, [M.Scan(A.acc_append, list, True)] if to_list_inner else [M.Map(vf)] + A.model_chain(p, mctx).ops)
     def split_chain():
         post_model = {None: [], 'to_list': [M.Scan(A.acc_append, list, True)], 'count': [M.Prefix(len, False)]}[post]
-        return M.Chain(mctx, [M.Split(lambda i: i[0], seg_chain)] + post_model)
+        return M.Chain(mctx, [M.Split(pf, seg_chain)] + post_model)
     if parent == 'none':
         top = split_chain()
     elif parent == 'group_by':
-        top = M.Chain(mctx, [M.GroupBy(lambda i: i[2], split_chain)])
+        top = M.Chain(mctx, [M.GroupBy(gf, split_chain)])
     elif parent == 'roll':
         top = M.Chain(mctx, [M.Roll(mctx, case['pspec'][0], case['pspec'][1], split_chain)])
     elif parent == 'gb+roll':
-        top = M.Chain(mctx, [M.GroupBy(lambda i: i[2], lambda: M.Chain(mctx, [M.Roll(mctx, case['pspec'][0], case['pspec'][1], split_chain)]))])
+        top = M.Chain(mctx, [M.GroupBy(gf, lambda: M.Chain(mctx, [M.Roll(mctx, case['pspec'][0], case['pspec'][1], split_chain)]))])
     else:
-        top = M.Chain(mctx, [M.Split(lambda i: i[2], split_chain)])
+        top = M.Chain(mctx, [M.Split(gf, split_chain)])
     try:
         exp = [v for _, v in M.run(top, objs)]
     except M.OutOfDomain:
@@ -139,7 +161,7 @@ def check(case):
         nruns = max(nruns, len(runs))
         for run in runs:
             for a, b in zip(run, run[1:]):
-                if a[0] is not b[0]:
+                if pf(a) is not pf(b):
                     eqni = True
     if claimed != len(sl):
         raise Violation('%d segments were opened outside any parent key lifetime' % (len(sl) - claimed), **ctx)
@@ -148,6 +170,8 @@ def check(case):
         labels.append('equal-not-identical-in-run')
     if not objs:
         labels.append('empty')
+    if any(o is None for o in objs):
+        labels.append('none-items')
     slots = {}
     for plt in plts:
         slots[plt['key'][0]] = slots.get(plt['key'][0], 0) + 1
